@@ -12,6 +12,10 @@
 (*   [a |-> "junk"]             a msgpack integer (not a map)                   *)
 (*   [a |-> "close"]            the client hangs up; the harness waits until    *)
 (*                              the server has deregistered the connection      *)
+(*   [a |-> "batch", objs]      PIPELINING: the objects objs (complete requests)  *)
+(*                              are written with ONE write before anything is   *)
+(*                              read, so they all sit in the server's read      *)
+(*                              buffer while the first one is handled           *)
 (*   [a |-> "conf", keyed]      first step: agent with / without an auth key    *)
 (* What the code does with them (modelled as it is):                           *)
 (*  * the header variable is reused: a body map read as a header has neither    *)
@@ -115,9 +119,13 @@ NoObs == [ rep |-> <<>>, eff |-> {}, srec |-> 0, closed |-> FALSE ]
 (*    and well-formed) is answered by an error header with its Seq; before the  *)
 (*    handshake the server hangs up after the first rejection, so only the      *)
 (*    first rejected header is owed a reply.  Judged when the connection ends.  *)
+(*  - "(and accepted ones their reply)": every complete request sent with       *)
+(*    intact framing on a live connection that the server has no reason to      *)
+(*    refuse gets a reply with its Seq (C24_no_reply); replies to pipelined     *)
+(*    requests come in request order (C24_reply_order).                         *)
 NewM == [ keyed |-> FALSE, hsSeqs |-> {}, auSeqs |-> {}, hsOK |-> FALSE, authOK |-> FALSE,
           sync |-> TRUE, cur |-> [cmd |-> "", seq |-> 0], owed |-> {}, rej |-> FALSE,
-          closed |-> FALSE, bad |-> {} ]
+          owedR |-> {}, ending |-> FALSE, closed |-> FALSE, bad |-> {} ]
 
 SeqsWith(o, e) == { o.rep[i].seq : i \in { j \in DOMAIN o.rep : o.rep[j].err = e } }
 HasData(o) == o.srec > 0 \/ \E i \in DOMAIN o.rep : o.rep[i].kind # ""
@@ -146,13 +154,50 @@ MonStep(m, act, o) ==
                   /\ act.cmd \notin {"handshake", "auth"}
       owed2  == ((IF owePre \/ oweAu THEN m.owed \cup {act.seq} ELSE m.owed)) \ SeqsWith(o, 1)
       b3     == IF act.a = "close" /\ owed2 # {} THEN {"C24_no_error_reply"} ELSE {}
+      \* a request that is complete with this object (framing intact, connection alive) and that the server has no
+      \* reason to refuse or to leave unanswered: any reply with its Seq will do (C24_no_reply, judged at close).
+      \* After an unknown command or a leave the server hangs up / the agent is gone: nothing more is owed.
+      live   == sync2 /\ ~m.closed /\ ~m.ending /\ ~m.rej
+      passed == m.hsOK /\ (~m.keyed \/ m.authOK)
+      doneHd == isHdr /\ act.cmd \in NoBody /\ live /\ passed
+      doneBd == isBody /\ live /\ m.cur.cmd = act.cmd
+                  /\ (act.cmd = "handshake" \/ (act.cmd = "auth" /\ m.hsOK) \/ passed)
+      owedR2 == ((IF doneHd THEN m.owedR \cup {act.seq} ELSE IF doneBd THEN m.owedR \cup {m.cur.seq} ELSE m.owedR))
+                  \ (SeqsWith(o, 0) \cup SeqsWith(o, 1))
+      b4     == IF act.a = "close" /\ owedR2 # {} THEN {"C24_no_reply"} ELSE {}
+      ending2 == m.ending \/ (doneHd /\ act.cmd \in {"bogus", "leave"})
   IN [ m EXCEPT !.hsSeqs = hsS, !.auSeqs = auS,
                 !.hsOK   = m.hsOK \/ (hsS \cap SeqsWith(o, 0) # {}),
                 !.authOK = m.authOK \/ (auS \cap SeqsWith(o, 0) # {}),
                 !.sync = sync2, !.cur = cur2, !.owed = owed2,
                 !.rej = m.rej \/ owePre,
+                !.owedR = owedR2, !.ending = ending2,
                 !.closed = m.closed \/ o.closed,
-                !.bad = m.bad \cup b1 \cup b2 \cup b3 ]
+                !.bad = m.bad \cup b1 \cup b2 \cup b3 \cup b4 ]
+
+\* A batch is judged object by object.  Replies are attributed through their Seq to the LAST object of the request
+\* they answer (so that a data reply behind a successful auth of the same batch is judged as authenticated);
+\* effects, stream records and closure are only known for the batch as a whole and go with its last object.
+\* C24_reply_order: the replies come in the order of the requests.
+ReqSeq(objs, i) == IF objs[i].a = "hdr" THEN objs[i].seq
+                   ELSE IF i > 1 /\ objs[i - 1].a = "hdr" THEN objs[i - 1].seq ELSE 0
+ReqEnd(objs, i) ==
+  \/ objs[i].a = "hdr" /\ ~(i < Len(objs) /\ objs[i + 1].a = "body" /\ objs[i + 1].cmd = objs[i].cmd)
+  \/ objs[i].a = "body" /\ i > 1 /\ objs[i - 1].a = "hdr" /\ objs[i - 1].cmd = objs[i].cmd
+BatchSeqs(objs) == { ReqSeq(objs, i) : i \in { j \in DOMAIN objs : ReqEnd(objs, j) } }
+Part(objs, o, i) ==
+  LET n == Len(objs) IN
+  [ rep |-> SelectSeq(o.rep, LAMBDA r : (ReqEnd(objs, i) /\ r.seq = ReqSeq(objs, i)) \/ (i = n /\ r.seq \notin BatchSeqs(objs))),
+    eff |-> IF i = n THEN o.eff ELSE {}, srec |-> IF i = n THEN o.srec ELSE 0, closed |-> i = n /\ o.closed ]
+RECURSIVE MonFold(_, _, _, _)
+MonFold(m, objs, o, i) == IF i > Len(objs) THEN m ELSE MonFold(MonStep(m, objs[i], Part(objs, o, i)), objs, o, i + 1)
+PosOfSeq(objs, s) == IF \E i \in DOMAIN objs : objs[i].a = "hdr" /\ objs[i].seq = s
+                     THEN CHOOSE i \in DOMAIN objs : objs[i].a = "hdr" /\ objs[i].seq = s ELSE 0
+MonBatch(m, objs, o) ==
+  LET m2 == MonFold(m, objs, o, 1)
+      inOrder == \A i, j \in DOMAIN o.rep : i < j => PosOfSeq(objs, o.rep[i].seq) <= PosOfSeq(objs, o.rep[j].seq)
+  IN  [m2 EXCEPT !.bad = @ \cup (IF inOrder THEN {} ELSE {"C24_reply_order"})]
+MonAct(m, act, o) == IF act.a = "batch" THEN MonBatch(m, act.objs, o) ELSE MonStep(m, act, o)
 
 ------------------------------------------------------------------------------
 (* Actions.  cst = command whose body the (disciplined) client may send next.  *)
@@ -175,6 +220,29 @@ Send(o) ==
        /\ M' = MonStep(M, o, obs')
   /\ steps' = steps + 1
 
+\* the server reads the batch object by object, exactly as if they had been sent one after the other
+RECURSIVE RecvAll(_, _, _)
+RecvAll(r, objs, i) ==
+  IF i > Len(objs) THEN r
+  ELSE LET x == Recv(r.S, objs[i]) IN RecvAll(R(x.S, r.rep \o x.rep, r.eff \cup x.eff), objs, i + 1)
+Batch(objs) ==
+  /\ steps >= 1 /\ steps <= MaxObjs /\ last.a # "close" /\ ~S.dead /\ cst = ""
+  /\ LET r == RecvAll(R(S, <<>>, {}), objs, 1) IN
+       /\ S' = r.S
+       /\ obs' = ObsOf(S, r)
+       /\ last' = [a |-> "batch", objs |-> objs] @@ Hints(r, S)
+       /\ M' = MonBatch(M, objs, obs')
+  /\ steps' = steps + 1 /\ cst' = ""
+
+\* requests as object sequences; Seqs inside a batch are 100 * step + position
+RH(c, q)    == [a |-> "hdr", cmd |-> c, seq |-> q]
+Rq(c, v, q) == IF c \in NoBody THEN <<RH(c, q)>> ELSE <<RH(c, q), [a |-> "body", cmd |-> c, v |-> v]>>
+B2(r1, r2)     == Rq(r1[1], r1[2], 100 * steps + 1) \o Rq(r2[1], r2[2], 100 * steps + 2)
+B3(r1, r2, r3) == B2(r1, r2) \o Rq(r3[1], r3[2], 100 * steps + 3)
+\* the exhaustive configuration pipelines a small alphabet, the generator a large one (Gen_AgentIPC)
+MCFirst == { <<"members", 1>>, <<"event", 1>> }
+MCNext  == { <<"auth", 1>>, <<"stats", 1>> }
+
 \* body variants: handshake 1 = version 1 (the only supported one), 0 = version 0, 2 = version 2, 3 = a large
 \* version (2^31-1) -- all three well-formed but unsupported: error reply, the connection stays un-handshaken;
 \* auth 1 = right key, 0 = wrong key; every other command 1 (0 = the same valid body).
@@ -196,6 +264,8 @@ Next == \/ \E k \in BOOLEAN : Conf(k)
         \/ \E c \in Cmds : SendHdr(c)
         \/ \E v \in BodyVs(cst) : SendBody(v)
         \/ SendJunk
+        \/ \E r2 \in MCNext : Batch(B2(<<"members", 1>>, r2))
+        \/ \E r1 \in MCFirst : Batch(B3(r1, <<"auth", 1>>, <<"stats", 1>>))
         \/ Close
 
 Spec == Init /\ [][Next]_vars
